@@ -89,6 +89,18 @@ pub fn run(toks: &[&str], fails: &mut Vec<(String, String)>) -> String {
             let res = if o.code == Some(0) {
                 match crate::cli::read_zst(&op).as_deref().and_then(AbsModel::from_bytes) {
                     Some(m2) => {
+                        // oracle: the tool reported success, so the model's dictionary is exactly what the file says, record by
+                        // record — words, weights AND comments (read here with the csv crate directly, not through the tool)
+                        if c19 {
+                            if let Ok(mut rdr) = csv::ReaderBuilder::new().from_reader(&bytes[..]).into_records().collect::<Result<Vec<_>, _>>() {
+                                let want: Vec<(String, String, String)> = rdr.drain(..).map(|r| (r.get(0).unwrap_or("").to_string(), r.get(1).unwrap_or("").to_string(), r.get(2).unwrap_or("").to_string())).collect();
+                                let got: Vec<(String, String, String)> = m2.dict.iter().map(|(w, ws, c)| (w.clone(), ws.iter().map(|x| x.to_string()).collect::<Vec<_>>().join(" "), c.clone())).collect();
+                                let norm = |v: &Vec<(String, String, String)>| v.iter().map(|(w, ws, c)| (w.clone(), ws.split(' ').map(|x| x.parse::<i32>().map(|v| v.to_string()).unwrap_or_else(|_| x.to_string())).collect::<Vec<_>>().join(" "), c.clone())).collect::<Vec<_>>();
+                                if norm(&want) != norm(&got) {
+                                    fails.push(("C19".into(), format!("manipulate_model --replace-dict reported success on the file {:?}, but the written model's dictionary is {got:?}, not the file's records {want:?}", String::from_utf8_lossy(&bytes))));
+                                }
+                            }
+                        }
                         if m2.dict.is_empty() {
                             "ok:-".to_string()
                         } else {
@@ -333,6 +345,12 @@ pub fn gen(out: &mut dyn std::io::Write, thorough: bool, seed: u64) {
                 file.clear();                                       // the empty file
             }
             writeln!(out, "LF {} c19", hexs(&file)).unwrap();
+        }
+        // edits of the dictionary the base model already has (word 旧, weights 1 2, comment old): only the comment changes, only a
+        // weight changes, nothing changes, the entry twice
+        for f in ["word,weights,comment\n旧,1 2,new comment\n", "word,weights,comment\n旧,1 2,\n", "word,weights,comment\n旧,1 3,old\n", "word,weights,comment\n旧,1 2,old\n",
+                  "word,weights,comment\n旧,1 2,old\n旧,1 2,again\n", "word,weights,comment\n\"旧\",\"1 2\",\"a, \"\"b\"\"\"\n"] {
+            writeln!(out, "LF {} c19", hexs(f)).unwrap();
         }
     }
     for s in ["1 2", "1  2", "", " ", "+5", "-0", "2147483648", "-2147483649", "1a", "１", "-", "3 -4 +5"] {
